@@ -53,7 +53,7 @@ Proof.
   rewrite Hst, C0, Ht. change (2147483652 =? 2147483652) with true. change (0 =? 0) with true. cbn [andb]. cbv iota.
   destruct (get_segmented c1 (rs_seq r) false) as [[c2 oss] code].
   assert (forall X Y Z : hstate * list hout, fst X = fst Y -> True) as _ by auto.
-  destruct oss as [ss|]; [destruct (code =? STATUS_SENDING); [|destruct (ss_last_resp ss)]|]; cbn [fst h_deliv h_next];
+  destruct oss as [ss|]; [destruct (code =? STATUS_SENDING); [|destruct (code =? STATUS_EXPIRED); [|destruct (ss_last_resp ss)]]|]; cbn [fst h_deliv h_next];
     unfold put_delivery; apply dget_dset_same.
 Qed.
 
@@ -341,9 +341,10 @@ Section Group.
   (* segment i is stored after its write *)
   Lemma put_step s ph lrc i :
     GI s ph lrc -> (i < k)%nat -> ph i = PNot ->
+    (i = 0%nat -> forall j, (j < k)%nat -> ph j = PNot) -> (i <> 0%nat -> ph 0%nat <> PNot) ->
     exists s', hstep s (HPut (seg i)) = (s', []) /\ GI s' (upd ph i PSending) lrc.
   Proof.
-    intros (Ha & Hb & Hc & Hd & He & Hl & N1 & N2 & N3 & N4) Hi Hp.
+    intros (Ha & Hb & Hc & Hd & He & Hl & N1 & N2 & N3 & N4) Hi Hp Hfirst Hlater.
     cbn [hstep]. eexists. split; [reflexivity|].
     unfold put_store. rewrite seg_is_submit. cbn [seg sm_sar sm_seq].
     replace (0 <? Z.of_nat k) with true by (symmetry; apply Z.ltb_lt; lia).
@@ -352,18 +353,22 @@ Section Group.
     assert (forallb (fun j => is_done (ph j)) idx = false) as Fd by (apply (forallb_idx_false _ i Hi); rewrite Hp; reflexivity).
     assert (forallb (fun j => is_not (ph' j)) idx = false) as Fn' by (apply (forallb_idx_false _ i Hi); unfold ph'; rewrite upd_same; reflexivity).
     assert (forallb (fun j => is_done (ph' j)) idx = false) as Fd' by (apply (forallb_idx_false _ i Hi); unfold ph'; rewrite upd_same; reflexivity).
-    assert (exists cell', (match dget r (c_stat (h_corr s)) with
+    assert (exists cell', (match (if 1 <? Z.of_nat i + 1 then dget r (c_stat (h_corr s)) else None) with
                            | Some ss => ss
                            | None => {| ss_status := map (fun j => (Z.of_nat j, STATUS_SENDING)) (seq 1 (Z.to_nat (Z.of_nat k)));
                                         ss_orig := seg i; ss_last_resp := None; ss_last_rcpt := None |}
                            end) = cell' /\ ss_status cell' = status_of ph /\ ss_last_rcpt cell' = option_map fst lrc) as (cell' & Ecell & Hst & Hlr).
-    { destruct (forallb (fun j => is_not (ph j)) idx) eqn:Fn.
-      - rewrite Fd in Hc. cbn [orb] in Hc. rewrite Hc. eexists. split; [reflexivity|]. cbn [ss_status ss_last_rcpt].
-        rewrite Nat2Z.id. split.
-        + apply fresh_status. intros j Hj. rewrite forallb_forall in Fn. specialize (Fn j (proj2 (In_idx j) Hj)). destruct (ph j); try discriminate; reflexivity.
+    { destruct (Nat.eq_dec i 0) as [E0|N0].
+      - (* the first segment: a new cell, whatever the store holds under this reference *)
+        subst i. change (1 <? Z.of_nat 0 + 1) with false. cbv iota.
+        eexists. split; [reflexivity|]. cbn [ss_status ss_last_rcpt]. rewrite Nat2Z.id. split.
+        + apply fresh_status. intros j Hj. apply (Hfirst eq_refl j Hj).
         + destruct Hl as (_ & _ & Hl3). rewrite Hl3; [reflexivity|].
-          intros j Hj. rewrite forallb_forall in Fn. specialize (Fn j (proj2 (In_idx j) Hj)). destruct (ph j); try discriminate; reflexivity.
-      - rewrite Fd in Hc. cbn [orb] in Hc. destruct Hc as (cell & -> & H1 & H2). exists cell. auto. }
+          intros j Hj. rewrite (Hfirst eq_refl j Hj). reflexivity.
+      - replace (1 <? Z.of_nat i + 1) with true by (symmetry; apply Z.ltb_lt; lia). cbv iota.
+        assert (forallb (fun j => is_not (ph j)) idx = false) as Fn.
+        { apply (forallb_idx_false _ 0%nat ltac:(lia)). specialize (Hlater N0). destruct (ph 0%nat); try reflexivity. contradiction. }
+        rewrite Fn, Fd in Hc. cbn [orb] in Hc. destruct Hc as (cell & -> & H1 & H2). exists cell. auto. }
     assert (ss_last_rcpt cell' = option_map fst lrc) as Hlr' by exact Hlr.
     unfold GI. cbn [h_corr h_deliv c_store c_seg c_stat].
     fold seg. change {| sm_uid := uid i; sm_cmd := 4; sm_seq := sq i; sm_log := log; sm_sar := (r, Z.of_nat i + 1, Z.of_nat k) |} with (seg i) in *.
@@ -467,7 +472,7 @@ Section Group.
           destruct (Nat.eq_dec j i) as [->|Hne]; [rewrite Hp; reflexivity|]. rewrite upd_other in Hnone by exact Hne. exact Hnone. }
       split; [exact N1|]. split; [apply dkeys_dset_NoDup; exact N2|]. split; [apply dkeys_dset_NoDup; exact N3|apply dkeys_ddel_NoDup; exact N4]. }
     cbn [seg sm_log] in *.
-    destruct (cd =? STATUS_SENDING); [|destruct (ss_last_resp cell')]; (eexists; eexists; split; [reflexivity|exact HG]).
+    destruct (cd =? STATUS_SENDING); [|destruct (cd =? STATUS_EXPIRED); [|destruct (ss_last_resp cell')]]; (eexists; eexists; split; [reflexivity|exact HG]).
   Qed.
 
   (* ---- any admissible interleaving of the message's events ---- *)
@@ -482,7 +487,7 @@ Section Group.
 
   Definition enabled (ph : nat -> phase) (g : gev) : Prop :=
     match g with
-    | GPut i => (i < k)%nat /\ ph i = PNot
+    | GPut i => (i < k)%nat /\ ph i = PNot /\ (i <> 0%nat -> ph 0%nat <> PNot)     (* segments are stored in the order sent: 1 first *)
     | GResp i _ => (i < k)%nat /\ ph i = PSending
     | GRcpt i _ e => (i < k)%nat /\ ph i = PSent /\ 0 <= e < STATUS_SENT
     end.
@@ -524,20 +529,30 @@ Section Group.
   Definition agrees (spec : option (list hout)) (got : list hout) : Prop :=
     match spec with Some o => got = o | None => True end.
 
+  Definition first_first (ph : nat -> phase) : Prop := ph 0%nat = PNot -> forall j, (j < k)%nat -> ph j = PNot.
+
   Theorem group_run : forall gs s ph lrc,
-    GI s ph lrc -> valid ph lrc gs -> Forall2 agrees (spec_outs ph lrc gs) (hrun_each s (map conc gs)).
+    GI s ph lrc -> first_first ph -> valid ph lrc gs -> Forall2 agrees (spec_outs ph lrc gs) (hrun_each s (map conc gs)).
   Proof.
-    induction gs as [|g t IH]; intros s ph lrc HG Hv; [constructor|].
+    induction gs as [|g t IH]; intros s ph lrc HG Hff Hv; [constructor|].
     cbn [valid] in Hv. destruct Hv as [Hen Hv]. cbn [map spec_outs hrun_each].
     destruct g as [i|i u|i u e]; cbn [enabled] in Hen.
-    - destruct Hen as [Hi Hp]. destruct (put_step s ph lrc i HG Hi Hp) as (s' & Hs & HG').
-      cbn [conc]. rewrite Hs. cbn [fst snd]. constructor; [exact I|]. apply (IH s' _ _ HG' Hv).
+    - destruct Hen as (Hi & Hp & Hord).
+      assert (i = 0%nat -> forall j, (j < k)%nat -> ph j = PNot) as Hfirst by (intros ->; apply Hff; exact Hp).
+      destruct (put_step s ph lrc i HG Hi Hp Hfirst Hord) as (s' & Hs & HG').
+      cbn [conc]. rewrite Hs. cbn [fst snd]. constructor; [exact I|]. apply (IH s' _ _ HG'); [|exact Hv].
+      cbn [after fst]. intros Hz j Hj. unfold upd in Hz. destruct (Nat.eqb 0 i) eqn:E0; [discriminate|].
+      apply Nat.eqb_neq in E0. exfalso. apply (Hord ltac:(lia)). exact Hz.
     - destruct Hen as [Hi Hp]. destruct (resp_ok_step s ph lrc i u HG Hi Hp) as (s' & out & Hs & HG').
-      cbn [conc hstep]. rewrite Hs. cbn [fst snd]. constructor; [exact I|]. apply (IH s' _ _ HG' Hv).
+      cbn [conc hstep]. rewrite Hs. cbn [fst snd]. constructor; [exact I|]. apply (IH s' _ _ HG'); [|exact Hv].
+      cbn [after fst]. intros Hz j Hj. unfold upd in Hz. destruct (Nat.eqb 0 i) eqn:E0; [discriminate|].
+      specialize (Hff Hz i Hi). rewrite Hff in Hp. discriminate.
     - destruct Hen as (Hi & Hp & He).
       destruct (receipt_step s ph lrc i {| rc_uid := u; rc_id := md i; rc_err := e |} HG Hi Hp eq_refl He) as (s' & HG' & Hs).
-      cbn [rc_uid rc_err] in *. cbn [conc hstep]. rewrite Hs. cbn [fst snd]. constructor; [|apply (IH s' _ _ HG' Hv)].
-      cbn [agrees expected after]. reflexivity.
+      cbn [rc_uid rc_err] in *. cbn [conc hstep]. rewrite Hs. cbn [fst snd]. constructor; [|apply (IH s' _ _ HG'); [|exact Hv]].
+      + cbn [agrees expected after]. reflexivity.
+      + cbn [after fst]. intros Hz j Hj. unfold upd in Hz. destruct (Nat.eqb 0 i) eqn:E0; [discriminate|].
+        specialize (Hff Hz i Hi). rewrite Hff in Hp. discriminate.
   Qed.
 
   Lemma GI_init : GI hinit (fun _ => PNot) None.
@@ -562,7 +577,7 @@ Theorem segmented_receipts r log k sq md uid gs :
   valid k (fun _ => PNot) None gs ->
   Forall2 agrees (spec_outs log k (fun _ => PNot) None gs) (hrun_each hinit (map (conc r log k sq md uid) gs)).
 Proof.
-  intros Hk Hs Hm Hv. apply (group_run r log k sq md uid Hk Hs Hm gs hinit _ _ (GI_init r log k sq md uid Hk) Hv).
+  intros Hk Hs Hm Hv. apply (group_run r log k sq md uid Hk Hs Hm gs hinit _ _ (GI_init r log k sq md uid Hk)); [intros _ j _; reflexivity|exact Hv].
 Qed.
 
 (* the receipt finally handed over is a failing one as soon as any segment's receipt failed *)
